@@ -289,6 +289,21 @@ func (k *kRun) kFinish() {
 		if !ok || env.Type != "error" {
 			continue
 		}
+		// an error envelope also answers a rejected message (malformed payload,
+		// invalid query, duplicate id ...) and carries the same generic text: it is
+		// attributed to the subscription only if the id received nothing but one subscribe
+		msgs, subscribes := 0, 0
+		for _, m := range k.sock.script {
+			if m.ID == id {
+				msgs++
+				if m.Type == "subscribe" && len(m.Message) > 1 {
+					subscribes++
+				}
+			}
+		}
+		if msgs != 1 || subscribes != 1 {
+			continue
+		}
 		if msg, _ := env.Message.(string); kFailureText(msg) {
 			_, present := k.conn.subscriptions[id]
 			nondet.Assert(!present && w.unsubs[id] == w.subs[id], "ended-by-failure")
